@@ -19,6 +19,9 @@
  *                                              answers per call (digit meaning as permit), last repeats
  *   home <k>                                   k<0: unsetenv HOME; 0: HOME=$S; k>0: HOME=$S/hhh..(k)
  *   tight reg=<0|1> en=<0|1>                   (un)register the extension, EnableFileTransfer
+ *   app reg=<0|1>                              (un)register an application-owned security handler (type 77)
+ *   pwhome <0|1|2>                             getpwuid: real / home does not exist / no entry
+ *   args <option>...                           rfbProcessArguments (extension options -ftproot, -disablefiletransfer)
  *   conn c<i> [viewonly] [tight]               handshake to RFB_NORMAL (tight: security type 16)
  *   view c<i> <0|1>                            cl->viewOnly
  *   send c<i> <hex>                            append bytes to the client->server stream, then
@@ -42,6 +45,7 @@
 #include <ftw.h>
 #include <stdarg.h>
 #include <zlib.h>
+#include <pwd.h>
 #include "sess.h"
 #include "tightvnc-filetransfer/rfbtightproto.h"
 #include "tightvnc-filetransfer/handlefiletransferrequest.h"
@@ -49,7 +53,7 @@
 extern rfbProtocolExtension tightVncFileTransferExtension;
 extern rfbBool rfbSendFileTransferChunk(rfbClientPtr cl);
 
-#define MAXC 16
+#define MAXC 64
 #define PLACE "verif-c19-0000000"
 static vh_conn conns[MAXC];
 static int used[MAXC];
@@ -61,6 +65,10 @@ static int fdser[4096], fdown[4096], nser = 0, ndser = 0;
 static struct { DIR *d; int ser; } dirs[64];
 static char cbseq[256]; static int cbn = 0, cbi = 0, cbset = 0;
 static int treg = 0;
+static int appreg = 0, pwmode = 0;
+/* an application-owned security handler (type 77); a client that picks it is simply refused */
+static void app_sec_handler(rfbClientPtr cl) { rfbCloseClient(cl); }
+static rfbSecurityHandler appHandler = { 77, app_sec_handler, NULL };
 /* listing: 0 none; 1 the next rfbDirPacket/rfbADirectory is the path echo; 2 entries follow */
 static int listing = 0;
 
@@ -309,6 +317,20 @@ int uncompress(Bytef *dst, uLongf *dl, const Bytef *src, uLong sl) {
   if (active()) { inhook = 1; if (r == 0) printf("x uncompress %lu -> %lu:%016llx\n", (unsigned long)sl, (unsigned long)*dl, (unsigned long long)vh_fnv(dst, *dl)); else printf("x uncompress %lu -> fail\n", (unsigned long)sl); inhook = 0; }
   return r;
 }
+/* passwd home of the account the server runs under: pwmode 0 real, 1 a directory that does not
+   exist, 2 no passwd entry */
+struct passwd *getpwuid(uid_t uid) {
+  static struct passwd *(*real)(uid_t); static struct passwd fake;
+  if (!real) real = (struct passwd *(*)(uid_t))dlsym(RTLD_NEXT, "getpwuid");
+  if (pwmode == 2) return NULL;
+  if (pwmode == 1) {
+    struct passwd *r = real(uid);
+    if (r) fake = *r; else memset(&fake, 0, sizeof fake);
+    fake.pw_dir = (char *)"/nonexistent/verif-c19-home";
+    return &fake;
+  }
+  return real(uid);
+}
 /* TightVNC download "thread": run the body synchronously (one legal schedule) */
 int pthread_create(pthread_t *t, const pthread_attr_t *a, void *(*fn)(void *), void *arg) {
   (void)a; memset(t, 0, sizeof *t); fn(arg); return 0;
@@ -554,8 +576,30 @@ int main(int argc, char **argv) {
       if (r) SetFtpRoot(root);
       EnableFileTransfer(e ? TRUE : FALSE);
       puts(".");
+    } else if (!strcmp(tok[0], "app") && n == 2 && !strncmp(tok[1], "reg=", 4)) {
+      int r = atoi(tok[1] + 4);
+      if (r && !appreg) { rfbRegisterSecurityHandler(&appHandler); appreg = 1; }
+      else if (!r && appreg) { rfbUnregisterSecurityHandler(&appHandler); appreg = 0; }
+      puts(".");
+    } else if (!strcmp(tok[0], "pwhome") && n == 2) {
+      pwmode = atoi(tok[1]);
+      puts(".");
+    } else if (!strcmp(tok[0], "args") && n >= 1) {
+      /* the command-line path: rfbProcessArguments hands unknown options to the extensions */
+      char *av[20]; static char store[16][300]; int ac = 1, i;
+      av[0] = (char *)"verif";
+      for (i = 1; i < n && ac < 17; i++) {
+        snprintf(store[ac - 1], sizeof store[0], "%s", tok[i]);
+        canon((unsigned char *)store[ac - 1], strlen(store[ac - 1]), 1);
+        av[ac] = store[ac - 1]; ac++;
+      }
+      av[ac] = NULL;
+      rfbProcessArguments(scr, &ac, av);
+      { char r[4200]; snprintf(r, sizeof r, "%s", GetFtpRoot());
+        printf("= args root="); ppath(r); printf(" en=%d\n", IsFileTransferEnabled() ? 1 : 0); }
+      puts(".");
     } else if (!strcmp(tok[0], "conn") && n >= 2 && n <= 4) {
-      int id = cid(tok[1]), vo = 0, tg = 0, i; vh_conn *c, *arr[1]; unsigned char b[2];
+      int id = cid(tok[1]), vo = 0, tg = 0, i; vh_conn *c, *arr[1]; unsigned char b[2]; int sec[32], nsec = 0;
       for (i = 2; i < n; i++) { if (!strcmp(tok[i], "viewonly")) vo = 1; else if (!strcmp(tok[i], "tight")) tg = 1; }
       if (id < 0 || used[id]) { puts("bad-op"); puts("."); continue; }
       used[id] = 1; c = &conns[id]; arr[0] = c;
@@ -563,6 +607,9 @@ int main(int argc, char **argv) {
       if (c->cl) {
         if (vo) c->cl->viewOnly = TRUE;
         if (c->cl->state == RFB_PROTOCOL_VERSION) rfbProcessClientMessage(c->cl);
+        /* the security types the server offers: 12 bytes version, count, types */
+        vh_drain(c); nsec = 0;
+        if (c->out.n >= 13) { size_t k; for (k = 0; k < c->out.p[12] && 13 + k < c->out.n && nsec < 32; k++) sec[nsec++] = c->out.p[13 + k]; }
         b[0] = tg ? rfbSecTypeTight : 1; vh_send(c, b, 1);
         if (c->cl && c->cl->sock != RFB_INVALID_SOCKET) rfbProcessClientMessage(c->cl);
         if (c->cl && c->cl->sock != RFB_INVALID_SOCKET && c->cl->state == RFB_INITIALISATION) {
@@ -571,8 +618,15 @@ int main(int argc, char **argv) {
         vh_drain(c); vh_buf_reset(&c->out);
       }
       if (!c->cl) printf("= c%d gone\n", id);
-      else printf("= c%d %s %s\n", id, c->cl->sock != RFB_INVALID_SOCKET ? "open" : "closed",
-                  c->cl->state == RFB_NORMAL ? "normal" : "hs");
+      else {
+        int x, y;
+        for (x = 0; x < nsec; x++) for (y = x + 1; y < nsec; y++) if (sec[y] < sec[x]) { int t2 = sec[x]; sec[x] = sec[y]; sec[y] = t2; }
+        printf("= c%d %s %s sec=", id, c->cl->sock != RFB_INVALID_SOCKET ? "open" : "closed",
+               c->cl->state == RFB_NORMAL ? "normal" : "hs");
+        for (x = 0; x < nsec; x++) printf("%s%d", x ? "," : "", sec[x]);
+        if (!nsec) putchar('-');
+        putchar('\n');
+      }
       puts(".");
     } else if (!strcmp(tok[0], "view") && n == 3) {
       int id = cid(tok[1]);
